@@ -1097,7 +1097,10 @@ def _subexpression_texts(text, env):
     known = set(env) | set(G.BASE_GLOBALS) | {'x'}
     import builtins
     out = set()
+    specs = set(id(n.format_spec) for n in ast.walk(tree) if isinstance(n, ast.FormattedValue) and n.format_spec is not None)
     for node in ast.walk(tree):
+        if id(node) in specs or (isinstance(node, ast.JoinedStr) and not node.values):
+            continue          # a format spec is not an expression of its own; f'' has no external part
         if not isinstance(node, ast.expr) or isinstance(node, (ast.Constant, ast.Name, ast.Slice, ast.Starred)):
             continue
         if node is tree and not isinstance(node, ast.JoinedStr):
